@@ -200,13 +200,17 @@ impl DeepCase {
 
     pub fn generate(prop: &str, rng: &mut Rng, thorough: bool) -> DeepCase {
         use crate::gen::{gen_domain, gen_view, Kind, ModelGen, Swarm};
-        let n = if thorough { *rng.pick(&[40usize, 300, 520, 700, 1100, 2200]) } else { *rng.pick(&[40usize, 300, 520, 700, 700, 1100]) };
-        let nfree = rng.range(1, 3) as usize;
+        let n = if thorough { *rng.pick(&[40usize, 300, 520, 700, 900, 1100, 2200]) } else { *rng.pick(&[40usize, 520, 600, 700, 700, 900, 1100]) };
+        // the end of the chain the brancher decides first (its value runs through the whole chain);
+        // the other end is the one the tight constraints talk about
+        let decided_end: usize = if rng.chance(0.5) { 0 } else { 2 };
+        let far_end = 2 - decided_end;
+        let nfree = rng.range(2, 4) as usize;
         let mut free = vec![];
         let mut space = 1usize;
         for _ in 0..nfree {
             let d = gen_domain(rng, 4);
-            if space * d.values.len() > 48 {
+            if space * d.values.len() > 200 {
                 break;
             }
             space *= d.values.len();
@@ -244,14 +248,17 @@ impl DeepCase {
         // tight linear constraints over an end of the chain and the further variables: only
         // some combinations are feasible, so the search runs into conflicts whose reasons reach
         // back through the chain
-        for _ in 0..rng.range(1, 2) {
-            let mut scope: Vec<usize> = vec![*rng.pick(&[0usize, 2, 2])];
+        for _ in 0..rng.range(2, 4) {
+            let mut scope: Vec<usize> = vec![if rng.chance(0.8) { far_end } else { decided_end }];
+            if rng.chance(0.2) {
+                scope.push(2 - scope[0]);
+            }
             for j in 3..small.len() {
                 if rng.chance(0.8) {
                     scope.push(j);
                 }
             }
-            let terms: Vec<View> = scope.iter().map(|v| View { var: *v, scale: *rng.pick(&[1, 1, 1, -1, 2]), off: 0 }).collect();
+            let terms: Vec<View> = scope.iter().map(|v| View { var: *v, scale: *rng.pick(&[1, 1, -1, -1, 2, -2]), off: 0 }).collect();
             let hi: i128 = terms.iter().map(|t| small[t.var].values.iter().map(|x| t.eval_value(*x)).max().unwrap()).sum();
             let lo: i128 = terms.iter().map(|t| small[t.var].values.iter().map(|x| t.eval_value(*x)).min().unwrap()).sum();
             if hi > lo {
@@ -275,20 +282,20 @@ impl DeepCase {
             order.swap(i, j);
         }
         c.order = order;
-        c.brancher = match rng.below(4) {
+        c.brancher = match rng.below(5) {
             // input order with the largest / smallest value first: deciding an end of the chain
             // propagates through all of it, later conflicts have reasons n propagations deep
-            0 | 1 => {
-                let end = if rng.chance(0.5) { 0 } else { 2 };
+            0..=2 => {
+                let end = decided_end;
                 c.order.retain(|x| *x != end);
                 c.order.insert(0, end);
                 c.chain_first = false;
                 BrancherSpec::Builtin { var_sel: 2, val_sel: if (end == 0) == rng.chance(0.8) { 1 } else { 4 } }
             }
-            2 => BrancherSpec::random_builtin(rng),
+            3 => BrancherSpec::random_builtin(rng),
             _ => BrancherSpec::random_sched(rng),
         };
-        if prop == "C18" {
+        if prop == "C18" || (prop == "C01" && rng.chance(0.6)) {
             // the built-in strategies (also alternating / dynamic / autonomous) over hundreds of
             // barely constrained variables, restarts included
             c.brancher = BrancherSpec::random_builtin(rng);
@@ -529,7 +536,7 @@ impl DeepCase {
         let sb = small_binding.clone();
         let f = move |p: &Pred| sb.pred(p);
         let mut br = build_brancher(&self.brancher, &solver, &ordered, &occ, &f);
-        let budget: u64 = if self.queens.is_some() { 12_000 } else { 300_000 };
+        let budget: u64 = if self.queens.is_some() { 12_000 } else { 50_000 };
         let mut clock = FaultClock::never(budget);
         let read = |s: &dyn Fn(DomainId) -> i32| -> (Vec<i32>, Vec<i32>) {
             let chain_vals: Vec<i32> = vars.iter().take(n + 1).map(|d| s(*d)).collect();
